@@ -2,12 +2,15 @@
 package c05
 
 import (
+	"bufio"
 	"bytes"
 	"encoding/binary"
 	"encoding/hex"
+	"io"
 	"math"
 	"strings"
 	"testing"
+	"testing/iotest"
 
 	"github.com/ctessum/geom"
 	ghex "github.com/ctessum/geom/encoding/hex"
@@ -217,6 +220,24 @@ func run(c Case) (v vkit.Verdict) {
 	}
 	if buf.String() != "tail" {
 		return v.Fail("Read consumed %q beyond the encoding", buf.String())
+	}
+	// the same bytes through readers that hand the data over in pieces (a reader may return fewer bytes than asked for:
+	// pipes, sockets, decompressors do), both byte orders
+	for _, enc := range [][]byte{want, mixedBytes} {
+		for name, rd := range map[string]io.Reader{
+			"one byte at a time":                  iotest.OneByteReader(bytes.NewReader(enc)),
+			"half of what is asked for":           iotest.HalfReader(bytes.NewReader(enc)),
+			"data and EOF together at the end":    iotest.DataErrReader(bytes.NewReader(enc)),
+			"a 16-byte buffered reader of halves": bufio.NewReaderSize(iotest.HalfReader(bytes.NewReader(enc)), 16),
+		} {
+			back4, err := wkb.Read(rd)
+			if err != nil {
+				return v.Fail("Read from a reader that delivers %s: error %v", name, err)
+			}
+			if bj4, ok := vkit.FromGeom(back4); !ok || !bj4.Equal(c.G, true) {
+				return v.Fail("Read from a reader that delivers %s != g: got %+v", name, back4)
+			}
+		}
 	}
 	// (4) hex
 	hs, err := ghex.Encode(g, bo)
